@@ -50,6 +50,8 @@ public:
 	}
 	SmartObject& operator=(const SmartObject& n)
 	{
+		if (_p == n._p)
+			return *this;
 		unref();
 		_p = n._p;
 		if (_p)
